@@ -328,6 +328,7 @@ def records(ctx):
             kinds = ['interior', 'face', 'aligned'] * 2
         return kinds
     fixed_records(add, random.Random(ctx.seed + 606), ctors, pulses, ctx.quick)
+    long_axis_records(add, random.Random(ctx.seed + 1006), ctors, pulses, ctx.quick)
     # ---- pulses
     for pf in pulses:
         P = pf['P']
@@ -381,7 +382,7 @@ def records(ctx):
             perm = list(range(1, P + 1))
             rng.shuffle(perm)
             add('reorder', 'PhiManip.reorder_pops', {'phi': enc_phi(phi), 'perm': perm})
-    return recs
+    return balance(recs, PARALLEL)
 
 
 def fixed_records(add, rng, ctors, pulses, quick):
@@ -508,6 +509,128 @@ def fixed_records(add, rng, ctors, pulses, quick):
         add('reorder', 'PhiManip.reorder_pops', {'phi': enc_phi(make_phi(rng, sh)), 'perm': ident[1:] + ident[:1], 'layout': 'sliced'})
 
 
+#: axis lengths above the block sizes an implementation may work in (32, 64): 33 .. 70
+LONG = (33, 70, 40, 65, 34, 48, 67, 36, 57, 35)
+#: the same for the destination axis of a pulse in 4-D / 5-D (the judge's work grows with its square)
+LONG_DEST = (33, 35, 34, 36)
+PARALLEL = 12
+
+
+def long_axis_records(add, rng, ctors, pulses, quick):
+    """Grids LONGER than typical internal block sizes (both tiers).  A 4-D / 5-D array on such a grid is only
+    affordable with unequal axis lengths: one axis has 33 .. 70 points, the others 3 (or 4); every axis of every
+    constructor (the new axis included), pulse, split, removal, filter and reordering function takes the long turn."""
+    count = itertools.count()
+
+    def make_phi(rng, shape):            # every entry occupied: every row of every block carries density
+        scale = 10 ** rng.uniform(-2, 3)
+        return np.array([rng.uniform(0.05, 1.0) * scale for _ in range(int(np.prod(shape)))]).reshape(shape)
+
+    def shape(P, a, n):
+        sh = [(3 if P >= 4 or (j + a) % 2 else 4) for j in range(P)]
+        sh[a] = n
+        return sh
+
+    def grids(sh, a, short=False):
+        c = next(count)
+        return [make_grid(rng, n, 'dyadic' if short else GRID_KINDS[(c + j) % len(GRID_KINDS)]) for j, n in enumerate(sh)]
+
+    def props(m, short=False):
+        if short:         # multiples of 1/64 inside the simplex
+            cut = sorted(rng.sample(range(1, 64), m))
+            return 'interior_dyadic', [(b - a_) / 64.0 for a_, b in zip([0] + cut[:-1], cut)]
+        kind = ('interior', 'face', 'subface', 'interior', 'aligned')[next(count) % 5]
+        return kind, make_props(rng, m, kind)
+    # ---- new population by admixture: every existing axis and the new axis
+    for name, P in ctors:
+        for a in range(P + 1):
+            sh = shape(P + 1, a, LONG[(a + P) % len(LONG)] if a else (70, 65, 33)[P - 2])
+            gs = grids(sh, a)
+            kind, fs = props(P - 1)
+            add('admix_new', 'PhiManip.' + name + PER_AXIS,
+                {'phi': enc_phi(make_phi(rng, sh[:P])), 'gs': [rats(g) for g in gs[:P]], 'gnew': rats(gs[P]), 'fs': rats(fs),
+                 'kind': 'long_axis_%d:%s' % (a + 1, kind), 'grids': 'mixed'})
+    # ---- pulses: every axis of every function
+    for pf in pulses:
+        P = pf['P']
+        for a in range(P):
+            if a + 1 == pf['dest'] and P >= 4:
+                n = LONG_DEST[(a + P) % len(LONG_DEST)]
+            elif a + 1 == pf['dest'] and P == 3:
+                n = LONG[(a + pf['dest']) % len(LONG)] % 16 + 33        # 33 .. 48
+            else:
+                n = LONG[(a + pf['dest'] + P) % len(LONG)]
+            sh = shape(P, a, n)
+            # long destination axis: the judge sums n exact terms per entry, which is affordable (3-D and up) only
+            # if grids and proportions are short binary fractions; the float code path is the same
+            short = a + 1 == pf['dest'] and P >= 3
+            gs = grids(sh, a, short)
+            kind, fs = props(P - 1, short)
+            add('pulse', 'PhiManip.' + pf['name'] + PER_AXIS,
+                {'phi': enc_phi(make_phi(rng, sh)), 'gs': [rats(g) for g in gs], 'dest': pf['dest'], 'src': pf['src'], 'fs': rats(fs),
+                 'kind': 'long_axis_%d:%s' % (a + 1, kind), 'grids': 'mixed'})
+    # ---- splits (one grid for all axes)
+    for n in (33, 70):
+        g = make_grid(rng, n, GRID_KINDS[n % 4])
+        add('split1d', 'PhiManip.phi_1D_to_2D', {'phi': enc_phi(make_phi(rng, [n])), 'g': rats(g)})
+    for k in (1, 2):
+        g = make_grid(rng, 33, ('dyadic', 'uniform')[k - 1])
+        add('split', 'PhiManip.phi_2D_to_3D_split_%d' % k, {'phi': enc_phi(make_phi(rng, [33, 33])), 'g': rats(g), 'k': k})
+    # ---- remove_pop / trapz / filter_pops / reorder_pops: the long axis removed, and kept
+    for P in range(1, 6):
+        for a in sorted({0, P - 1}):
+            n = LONG[(a + 2 * P) % len(LONG)]
+            sh = shape(P, a, n)
+            g = make_grid(rng, n, GRID_KINDS[(a + P) % 4])
+            phi = make_phi(rng, sh)
+            add('remove', 'PhiManip.remove_pop', {'phi': enc_phi(phi), 'g': rats(g), 'a': a + 1})
+            add('remove', 'Numerics.trapz', {'phi': enc_phi(phi), 'g': rats(g), 'a': a + 1})
+            if P >= 2:
+                b = (a + 1) % P                                         # a short axis is removed, the long one stays
+                gb = make_grid(rng, sh[b], GRID_KINDS[(b + P) % 4])
+                add('remove', 'PhiManip.remove_pop', {'phi': enc_phi(phi), 'g': rats(gb), 'a': b + 1})
+                add('remove', 'Numerics.trapz', {'phi': enc_phi(phi), 'g': rats(gb), 'a': b + 1})
+                add('filter', 'PhiManip.filter_pops', {'phi': enc_phi(phi), 'g': rats(g), 'keep': [j + 1 for j in range(P) if j != a]})
+                sh2 = [3] * P
+                sh2[a] = n
+                add('filter', 'PhiManip.filter_pops', {'phi': enc_phi(make_phi(rng, sh2)), 'g': rats(make_grid(rng, 3, 'random')), 'keep': [a + 1]})
+                ident = list(range(1, P + 1))
+                add('reorder', 'PhiManip.reorder_pops', {'phi': enc_phi(phi), 'perm': ident[1:] + ident[:1]})
+
+
+def cost_of(rec):
+    """A rough count of the work the judge spends on a record (only used to share the records evenly between
+    the parallel judges; the verdict of a record does not depend on its neighbours): rational operations, five-fold
+    if the grids are full 53-bit fractions rather than short binary ones."""
+    i = rec['in']
+    size = len(i['phi']['d'])
+    gs = list(i.get('gs', [])) + [i[k] for k in ('g', 'gnew') if k in i]
+    digits = [len(x) for g in gs for x in g]
+    f = 5 if digits and sum(digits) > 12 * len(digits) else 1
+    if rec['op'] == 'pulse':
+        return 200 + f * 3 * size * i['phi']['sh'][i['dest'] - 1]
+    if rec['op'] == 'admix_new':
+        return 200 + f * 4 * size * len(i['gnew'])
+    if rec['op'] == 'split':
+        return 200 + f * 5 * size * len(i['g'])
+    return 200 + f * size
+
+
+def balance(recs, parallel):
+    """Reorder the records so that the `parallel` contiguous batches the pipeline hands to the judges carry
+    about the same work: largest first into the lightest batch that has room; original order within a batch."""
+    n = len(recs)
+    batch = max(1, (n + parallel - 1) // parallel)
+    caps = [min(batch, max(0, n - k * batch)) for k in range(parallel)]
+    bins = [[] for _ in range(parallel)]
+    load = [0] * parallel
+    for idx in sorted(range(n), key=lambda j: -cost_of(recs[j])):
+        k = min((k for k in range(parallel) if len(bins[k]) < caps[k]), key=lambda k: load[k])
+        bins[k].append(idx)
+        load[k] += cost_of(recs[idx])
+    return [recs[j] for b in bins for j in sorted(b)]
+
+
 # ---------------------------------------------------------------- evidence helpers
 def nontrivial(r):
     i = r['in']
@@ -563,7 +686,7 @@ def run(ctx):
         recs = records(ctx)
     return common.pipeline(
         ctx, [('PhiOpsMC', 'PhiOpsMC_%s.cfg' % ctx.tier)], 'Trace_PhiOps', recs,
-        nontrivial_of=nontrivial, mutator=mutate, what_of=what_of, parallel=12,
+        nontrivial_of=nontrivial, mutator=mutate, what_of=what_of, parallel=PARALLEL,
         rule='pulse / admix_new records: distinct (function, proportion class [zero, vertex, face, subface, grid-aligned, interior, '
              'round-off stress, above 1; fixed set: 1 / 0.375 / 1.25 from each single source, ints, (0.9, 0.1), 2- and 3-point grids, '
              'Fortran / strided layouts, empty and corner-only densities], array shape, grid mode [one grid for all axes | per-axis grids of equal | different lengths]); '
